@@ -485,6 +485,9 @@ namespace BitSerializer::Convert::Detail
 
 		// Based on Howard Hinnant's algorithm
 		static_assert(sizeof(int) >= 4, "This algorithm has not been ported to a 16 bit integers");
+		if (utc.Year < std::numeric_limits<int64_t>::min() + 400) {
+			throw std::out_of_range("Target duration is not enough");
+		}
 		auto const y = utc.Year - (utc.Month <= 2);
 		auto const m = static_cast<unsigned>(utc.Month);
 		auto const d = static_cast<unsigned>(utc.Day);
@@ -493,12 +496,19 @@ namespace BitSerializer::Convert::Detail
 		auto const doy = (153 * (m > 2 ? m - 3 : m + 9) + 2) / 5 + d - 1;	// [0, 365]
 		auto const doe = yoe * 365 + yoe / 4 - yoe / 100 + doy;				// [0, 146096]
 
-		if (static_cast<int64_t>(era) > std::numeric_limits<int64_t>::max() / 146097ll ||
-			static_cast<int64_t>(era) < std::numeric_limits<int64_t>::min() / 146097ll)
+		// days = era * 146097 + doe - 719468.  For era >= 0 it is computed as (era - 5) * 146097 + rest with a positive
+		// rest, for era < 0 with the negative rest as it is: the product and the sum are then checked separately
+		// (the sum used to wrap just below the 64-bit minimum, and the last 719468 days below the maximum were rejected).
+		const int64_t eraShifted = era >= 0 ? static_cast<int64_t>(era) - 5 : static_cast<int64_t>(era);
+		const int64_t rest = static_cast<int64_t>(doe) + (era >= 0 ? 5 * 146097ll - 719468ll : -719468ll);
+		if (eraShifted > std::numeric_limits<int64_t>::max() / 146097ll ||
+			eraShifted < std::numeric_limits<int64_t>::min() / 146097ll ||
+			(rest > 0 ? eraShifted * 146097ll > std::numeric_limits<int64_t>::max() - rest
+					  : eraShifted * 146097ll < std::numeric_limits<int64_t>::min() - rest))
 		{
 			throw std::out_of_range("Target duration is not enough");
 		}
-		const int64_t days = era * 146097ll + (static_cast<int>(doe) - 719468);
+		const int64_t days = eraShifted * 146097ll + rest;
 		const auto time = static_cast<long long>(utc.Hour) * 3600 + static_cast<long long>(utc.Min) * 60 + utc.Sec;
 
 		std::chrono::time_point<TClock, TDuration> tp;
